@@ -41,7 +41,24 @@ func safeEvalExpr(ctx context.Context, v rel.Value) (rel.Value, error) {
 	return evalExprWithScope(arraictx.ContextWithIsSandboxed(ctx, true), v, SafeStdScope())
 }
 
+type parseScopeKey struct{}
+
+// withParseScope records the scope that is in force while source is parsed: macro expressions are
+// evaluated by the parser, and must see the library of the evaluation they belong to.
+func withParseScope(ctx context.Context, scope rel.Scope) context.Context {
+	return context.WithValue(ctx, parseScopeKey{}, scope)
+}
+
+// parseScopeFrom returns the scope recorded by withParseScope, or the empty scope.
+func parseScopeFrom(ctx context.Context) rel.Scope {
+	if scope, ok := ctx.Value(parseScopeKey{}).(rel.Scope); ok {
+		return scope
+	}
+	return rel.Scope{}
+}
+
 func evalExprWithScope(ctx context.Context, v rel.Value, scope rel.Scope) (rel.Value, error) {
+	ctx = withParseScope(ctx, scope)
 	switch val := v.(type) {
 	case rel.String, rel.Bytes:
 		evaluated, err := EvalWithScope(ctx, ".", val.String(), scope)
@@ -70,7 +87,7 @@ func contextualEval(ctx context.Context, config EvalConfig, v rel.Value) (rel.Va
 		scope = scope.With(name, value)
 	}
 	// the source may only use what the config provides: no files or URLs through import syntax
-	ctx = arraictx.ContextWithIsSandboxed(ctx, true)
+	ctx = withParseScope(arraictx.ContextWithIsSandboxed(ctx, true), scope)
 	switch val := v.(type) {
 	case rel.String, rel.Bytes:
 		evaluated, err := EvalWithScope(ctx, "", val.String(), scope)
